@@ -364,6 +364,22 @@ def build_pool(scratch=None, nfields=12):
         fields["g0"] = g
     except Exception as e:
         sys.stderr.write("g0 unavailable: %r\n" % (e,))
+    # a field on which apply_masking (and similar value-dependent methods) has an effect on the
+    # field AND on its metadata constructs: fill / valid properties that match actual values of
+    # the data, of a coordinate, of its bounds and of an ancillary (seeded change C04-s3)
+    try:
+        m = cfdm.example_field(1)
+        m.set_property("missing_value", float(m.data.array.flat[3]))
+        for key, c in m.constructs.filter_by_data(todict=True).items():
+            a = c.data.array
+            if a.dtype.kind in "if" and a.size > 1:
+                c.set_property("missing_value", a.flat[0].item())
+                c.set_property("valid_max", float(a.max()) - 1e-9 if a.dtype.kind == "f" else int(a.max()) - 1)
+                if hasattr(c, "has_bounds") and c.has_bounds():
+                    c.bounds.set_property("_FillValue", c.bounds.data.array.flat[1].item())
+        fields["m1"] = m
+    except Exception as e:
+        sys.stderr.write("m1 unavailable: %r\n" % (e,))
     fields.update(_file_backed(scratch))
 
     for fl, f in fields.items():
